@@ -574,3 +574,60 @@ impl cw_multi_test::AddressGenerator for AdvAddrGen {
         adv_address(api, code_id, instance_id)
     }
 }
+
+
+/// The address codec of a run: the repo's bech32 mock with a per-run prefix (most runs), or cosmwasm-std's
+/// own `MockApi` — what `App::default()` uses, and so what most tests of contracts run with.
+pub enum SimApi {
+    Bech32(cw_multi_test::MockApiBech32),
+    Std(cosmwasm_std::testing::MockApi),
+}
+
+impl SimApi {
+    pub fn new(prefix: &'static str, std_api: bool) -> Self {
+        if std_api {
+            SimApi::Std(cosmwasm_std::testing::MockApi::default().with_prefix(prefix))
+        } else {
+            SimApi::Bech32(cw_multi_test::MockApiBech32::new(prefix))
+        }
+    }
+    pub fn addr_make(&self, input: &str) -> cosmwasm_std::Addr {
+        match self {
+            SimApi::Bech32(a) => a.addr_make(input),
+            SimApi::Std(a) => a.addr_make(input),
+        }
+    }
+    fn inner(&self) -> &dyn cosmwasm_std::Api {
+        match self {
+            SimApi::Bech32(a) => a,
+            SimApi::Std(a) => a,
+        }
+    }
+}
+
+impl cosmwasm_std::Api for SimApi {
+    fn addr_validate(&self, human: &str) -> cosmwasm_std::StdResult<cosmwasm_std::Addr> {
+        self.inner().addr_validate(human)
+    }
+    fn addr_canonicalize(&self, human: &str) -> cosmwasm_std::StdResult<cosmwasm_std::CanonicalAddr> {
+        self.inner().addr_canonicalize(human)
+    }
+    fn addr_humanize(&self, canonical: &cosmwasm_std::CanonicalAddr) -> cosmwasm_std::StdResult<cosmwasm_std::Addr> {
+        self.inner().addr_humanize(canonical)
+    }
+    fn secp256k1_verify(&self, message_hash: &[u8], signature: &[u8], public_key: &[u8]) -> Result<bool, cosmwasm_std::VerificationError> {
+        self.inner().secp256k1_verify(message_hash, signature, public_key)
+    }
+    fn secp256k1_recover_pubkey(&self, message_hash: &[u8], signature: &[u8], recovery_param: u8) -> Result<Vec<u8>, cosmwasm_std::RecoverPubkeyError> {
+        self.inner().secp256k1_recover_pubkey(message_hash, signature, recovery_param)
+    }
+    fn ed25519_verify(&self, message: &[u8], signature: &[u8], public_key: &[u8]) -> Result<bool, cosmwasm_std::VerificationError> {
+        self.inner().ed25519_verify(message, signature, public_key)
+    }
+    fn ed25519_batch_verify(&self, messages: &[&[u8]], signatures: &[&[u8]], public_keys: &[&[u8]]) -> Result<bool, cosmwasm_std::VerificationError> {
+        self.inner().ed25519_batch_verify(messages, signatures, public_keys)
+    }
+    fn debug(&self, message: &str) {
+        self.inner().debug(message)
+    }
+}
